@@ -47,7 +47,11 @@ def groups(tier):
 
 def variants(tier):
     strides = STRIDES_Q if tier == "quick" else STRIDES_T
-    return [{"stride_extra": s, "padbyte": p, "lifetime": l} for s, p, l in itertools.product(strides, PADS, LIFETIMES)]
+    vs = [{"stride_extra": s, "padbyte": p, "lifetime": l} for s, p, l in itertools.product(strides, PADS, LIFETIMES)]
+    # each plane has a stride of its own in the API: chroma strides that differ from each other and from luma/2
+    for s, (cb, cr), p in itertools.product((0, 16), ((8, 0), (0, 24), (3, 5)), (0, 255) if tier == "quick" else PADS):
+        vs.append({"stride_extra": s, "stride_extra_cb": cb, "stride_extra_cr": cr, "padbyte": p, "lifetime": "keep" if tier == "quick" else "scribble"})
+    return vs
 
 
 def asan_site(stderr):
@@ -154,7 +158,9 @@ def tight_case(item):
 
 def deviation_class(v):
     parts = []
-    if v["stride_extra"]:
+    if v.get("stride_extra_cb") or v.get("stride_extra_cr"):
+        parts.append("chroma-strides-differ")
+    if v["stride_extra"] or v.get("stride_extra_cb") or v.get("stride_extra_cr"):
         parts.append("stride>width")
         if v["padbyte"]:
             parts.append("padding-bytes-nonzero")
@@ -171,7 +177,8 @@ def group_items(gl, base, vs):
     for v in vs:
         a = dict(base)
         a.update(v)
-        items.append(("%s/stride_extra=%d,padbyte=%d,lifetime=%s" % (gl, v["stride_extra"], v["padbyte"], v["lifetime"]), a, build_of(a)))
+        items.append(("%s/stride_extra=%d%s,padbyte=%d,lifetime=%s" % (gl, v["stride_extra"], ("+cb%d+cr%d" % (v["stride_extra_cb"], v["stride_extra_cr"])) if "stride_extra_cb" in v else "",
+                                                                         v["padbyte"], v["lifetime"]), a, build_of(a)))
     return items
 
 
@@ -201,7 +208,7 @@ def run(tier):
         a0 = lst[0][1]
         bits = a0["bits"]
         tools = "tf=%s,ov=%s" % (a0["tf_level"], a0["enable_overlays"])
-        ref = [x for x in lst if (x[1]["stride_extra"], x[1]["padbyte"], x[1]["lifetime"]) == (0, 0, "keep")]
+        ref = [x for x in lst if (x[1]["stride_extra"], x[1]["padbyte"], x[1]["lifetime"], x[1].get("stride_extra_cb", 0), x[1].get("stride_extra_cr", 0)) == (0, 0, "keep", 0, 0)]
         gl = "%s[%s build]" % (gl, build)
         for label, a, o in lst:
             if o["status"] == "asan":
@@ -319,7 +326,7 @@ def demo(which="stale-cr-pointer", sizes=((66, 66),)):
             keys = {}
             refs = {}
             for (l, a, b), o in zip(items, res):
-                if (a["stride_extra"], a["padbyte"], a["lifetime"]) == (0, 0, "keep"):
+                if (a["stride_extra"], a["padbyte"], a["lifetime"], a.get("stride_extra_cb", 0), a.get("stride_extra_cr", 0)) == (0, 0, "keep", 0, 0):
                     refs[b] = o
             for (l, a, b), o in zip(items, res):
                 ref = refs[b]
